@@ -218,8 +218,8 @@ pub fn run(prop: &str, tier: Tier) -> (RunMeta, Acc) {
             let mut fams: Vec<usize> = (0..gen::NEST_FAMILIES_ALL).collect();
             let mut rng = Rng::new(seed ^ 0xC05);
             let n_mixed = if tier == Tier::Quick { 6 } else { 60 };
-            for _ in 0..n_mixed {
-                fams.push(1000 + rng.below(100_000));
+            for k in 0..n_mixed {
+                fams.push(if k % 2 == 0 { 1000 + rng.below(100_000) } else { 2_000_000 + rng.below(100_000) });
             }
             let max_depth = if tier == Tier::Quick { 2048 } else { 8192 };
             p_total::run_ladders(&fams, max_depth, &mut acc);
@@ -257,8 +257,8 @@ pub fn run(prop: &str, tier: Tier) -> (RunMeta, Acc) {
             let mut fams: Vec<usize> = (0..gen::NEST_FAMILIES_ALL).collect();
             let mut rng = Rng::new(seed ^ 0xC18);
             let n_mixed = if tier == Tier::Quick { 200 } else { 12_000 };
-            for _ in 0..n_mixed {
-                fams.push(1000 + rng.below(1_000_000));
+            for k in 0..n_mixed {
+                fams.push(if k % 2 == 0 { 1000 + rng.below(1_000_000) } else { 2_000_000 + rng.below(1_000_000) });
             }
             let widths: Vec<usize> = if tier == Tier::Quick { vec![0, 80, fmtx::W_INF] } else { vec![0, 1, 8, 20, 40, 80, 120, fmtx::W_INF] };
             use rayon::prelude::*;
